@@ -23,10 +23,10 @@ CONSTANTS Kinds,        \* action kinds explored by U1
                                  \* unregistered topic before it registers that topic again
           MaxDepth, DumpPrefix
 
-VARIABLES S, mbox, cnt, leak, hist,
+VARIABLES S, mbox, cnt, leak, lost, hist,
           W        \* generation only: world-level bookkeeping next to S (connected sessions, p2p attachments, step count)
-vars == <<S, mbox, cnt, leak, hist, W>>
-View == <<S, mbox, cnt, leak>>
+vars == <<S, mbox, cnt, leak, lost, hist, W>>
+View == <<S, mbox, cnt, leak, lost>>
 
 \* ------------------------------------------------------------------ U1: asynchronous exploration
 U1State ==
@@ -37,7 +37,7 @@ U1State ==
 Init == /\ S = U1State
         /\ mbox = [d \in Actors |-> <<>>]
         /\ cnt = [unl |-> 0, perm |-> 0, bg |-> 0]
-        /\ leak = FALSE
+        /\ leak = FALSE /\ lost = FALSE
         /\ hist = <<>>
         /\ W = <<>>
 
@@ -51,7 +51,7 @@ Take(r, label) ==
   /\ S' = r.st
   /\ mbox' = Enq(mbox, r.out)
   /\ hist' = label
-  /\ UNCHANGED <<leak, W>>
+  /\ UNCHANGED <<leak, lost, W>>
 
 K(k) == k \in Kinds
 Idle(x) == S.top[x].ph = "live" /\ S.top[x].att = {} /\ S.top[x].pend = {}
@@ -104,9 +104,11 @@ Deliver(d) ==
      /\ Fits(mb2)
      /\ S' = r.st /\ mbox' = mb2 /\ hist' = <<"Deliver", d, m>>
      /\ leak' = (leak \/ \E i \in DOMAIN r.fw : ~Legit(r.st, mb2, m, r.fw[i]))
+     \* a removal notice handled by a 'me' topic with attached sessions must reach them, P or not, contact known or not
+     /\ lost' = (lost \/ (d \in Users /\ m.what = "gone" /\ S.top[d].att # {} /\ r.fw = <<>>))
   /\ UNCHANGED <<cnt, W>>
 DropToUnloaded(d) == /\ mbox[d] # <<>> /\ S.top[d].ph = "off"
-                     /\ mbox' = [mbox EXCEPT ![d] = Tail(@)] /\ hist' = <<"DropToUnloaded", d, Head(mbox[d])>> /\ UNCHANGED <<S, cnt, leak, W>>
+                     /\ mbox' = [mbox EXCEPT ![d] = Tail(@)] /\ hist' = <<"DropToUnloaded", d, Head(mbox[d])>> /\ UNCHANGED <<S, cnt, leak, lost, W>>
 
 PermOK == cnt.perm < MaxPerm
 DoMute(t, u) == /\ K("mute") /\ PermOK /\ S.sub[t][u].live /\ S.sub[t][u].P
@@ -115,6 +117,8 @@ DoUnmute(t, u) == /\ K("mute") /\ PermOK /\ S.sub[t][u].live /\ ~S.sub[t][u].P
                   /\ Take(Unmute(S, t, u), <<"Unmute", t, u>>) /\ cnt' = [cnt EXCEPT !.perm = @ + 1]
 Invite(g, u) == /\ K("member") /\ PermOK /\ ~S.sub[g][u].live
                 /\ Take(JoinGrp(S, g, u, TRUE), <<"Invite", g, u>>) /\ cnt' = [cnt EXCEPT !.perm = @ + 1]
+InviteMuted(g, u) == /\ K("member") /\ PermOK /\ ~S.sub[g][u].live
+                     /\ Take(JoinGrp(S, g, u, FALSE), <<"InviteMuted", g, u>>) /\ cnt' = [cnt EXCEPT !.perm = @ + 1]
 EvictUser(g, u) == /\ K("member") /\ PermOK /\ S.sub[g][u].live /\ u # Owner[g] /\ S.top[g].ph \in {"off", "live"}
                    /\ Take(GoneGrp(S, g, u), <<"EvictUser", g, u>>) /\ cnt' = [cnt EXCEPT !.perm = @ + 1]
 
@@ -124,18 +128,19 @@ Next ==
   \/ \E s \in Sessions, x \in Actors : DetachAny(s, x) \/ SessToFg(x, s)
   \/ \E x \in Actors : UnloadOne(x) \/ TimeoutSendsUnreg(x) \/ TimeoutSendsOff(x) \/ HubUnreg(x) \/ Deliver(x) \/ DropToUnloaded(x)
   \/ \E t \in SubTopics, u \in Users : DoMute(t, u) \/ DoUnmute(t, u)
-  \/ \E g \in Groups, u \in Users : Invite(g, u) \/ EvictUser(g, u)
+  \/ \E g \in Groups, u \in Users : Invite(g, u) \/ InviteMuted(g, u) \/ EvictUser(g, u)
 
 Quiescent == (\A d \in Actors : mbox[d] = <<>>) /\ Settled(S)
 OnlineCountOK == OnlineCountExact(S)
 NoLeakOK == ~leak
+GoneDeliveredOK == ~lost
 QuiescentConverged == Quiescent => Converged(S)
 
 \* ------------------------------------------------------------------ generation of World behaviours (sequential)
 GenInit == /\ S = InitState
            /\ W = [conn |-> [s \in Sessions |-> TRUE], patt |-> [p \in P2Ps |-> {}], n |-> 0]
            /\ hist = <<>>
-           /\ mbox = <<>> /\ cnt = <<>> /\ leak = FALSE
+           /\ mbox = <<>> /\ cnt = <<>> /\ leak = FALSE /\ lost = FALSE
 
 PModes == [p |-> "JRWPA", n |-> "JRWA"]
 GMember == [p |-> "JRWPS", n |-> "JRWS"]
@@ -200,6 +205,12 @@ GenActs ==
       delsub == {[a |-> [a |-> "DelSub", s |-> x[1], t |-> x[2], u |-> u], ev |-> IF S.sub[x[2]][u].live THEN <<Ev("gone", x[2], u, FALSE)>> ELSE <<>>] :
                    x \in {y \in SG : y[1] \in S.top[y[2]].att /\ SessUser[y[1]] = Owner[y[2]]}, u \in Users}
       delsub2 == {x \in delsub : x.a.u # SessUser[x.a.s]}
+      \* {del what=topic}: the owner deletes the group (every live subscription goes), an end of the p2p topic leaves it
+      GoneAll(g) == LET l == SelectSeq(UserOrder, LAMBDA u : S.sub[g][u].live) IN [i \in DOMAIN l |-> Ev("gone", g, l[i], FALSE)]
+      deltopic == {[a |-> [a |-> "DelTopic", s |-> x[1], t |-> x[2], hard |-> h], ev |-> GoneAll(x[2])] :
+                     x \in {y \in SG : SessUser[y[1]] = Owner[y[2]]}, h \in BOOLEAN}
+                  \cup {[a |-> [a |-> "DelTopic", s |-> x[1], t |-> x[2], hard |-> TRUE], ev |-> <<Ev("gone", x[2], U(x), FALSE)>>] :
+                          x \in {y \in SP : S.sub[y[2]][SessUser[y[1]]].live}}
       \* traffic that must not change presence state but produces the notifications clause (2) is about
       pub == {A([a |-> "Pub", s |-> x[1], t |-> x[2], c |-> "c1", noecho |-> FALSE]) : x \in ST}
       note == {A([a |-> "Note", s |-> x[1], t |-> x[2], what |-> w, seq |-> 1]) : x \in ST, w \in {"read", "recv", "kp"}}
@@ -207,7 +218,7 @@ GenActs ==
       setdesc == {A([a |-> "SetDesc", s |-> x[1], t |-> x[2], public |-> "x", private |-> ""]) : x \in {y \in ST : y[2] \in Groups}}
                  \cup {A([a |-> "SetDesc", s |-> s, t |-> "me", public |-> "y", private |-> ""]) : s \in {x \in cs : x \in S.top[SessUser[x]].att}}
   IN subme \cup leaveme \cup disc \cup conn \cup connbg \cup bgfire \cup unload \cup newgrp \cup subgrp \cup leavegrp \cup unsubgrp
-     \cup subp2p \cup leavep2p \cup setself \cup setother2 \cup delsub2 \cup pub \cup note \cup delmsg \cup setdesc
+     \cup subp2p \cup leavep2p \cup setself \cup setother2 \cup delsub2 \cup deltopic \cup pub \cup note \cup delmsg \cup setdesc
 
 GenKind(x) == IF x.a.a \in {"Sub", "Leave", "Unload", "SetSelf", "SetOther"} THEN
                  x.a.a \o (IF x.a.t = "me" \/ IsMeName(x.a.t) THEN "me" ELSE IF x.a.t \in Groups THEN "g" ELSE "p")
@@ -228,16 +239,18 @@ WStep(a) ==
     [] a.a = "ConnectBg" -> [W EXCEPT !.conn[a.sess] = TRUE, !.n = @ + 1]
     [] a.a = "Sub" /\ a.t \in P2Ps -> [W EXCEPT !.patt[a.t] = @ \cup {a.s}, !.n = @ + 1]
     [] a.a = "Leave" /\ a.t \in P2Ps -> [W EXCEPT !.patt[a.t] = IF a.unsub THEN @ \ SessOf(SessUser[a.s]) ELSE @ \ {a.s}, !.n = @ + 1]
+    [] a.a = "DelTopic" /\ a.t \in P2Ps -> [W EXCEPT !.patt[a.t] = @ \ SessOf(SessUser[a.s]), !.n = @ + 1]
     [] OTHER -> [W EXCEPT !.n = @ + 1]
 
 GenNext ==
   /\ W.n < MaxDepth
   /\ \E x \in {GenDraw} :
-       LET r == SeqStep(S, x.a, x.ev, [ok |-> TRUE, denied |-> FALSE, fresh |-> TRUE]) IN
+       LET tl == IF x.a.a = "DelTopic" /\ x.a.t \in P2Ps THEN W.patt[x.a.t] # {} ELSE TRUE
+           r == SeqStep(S, x.a, x.ev, [ok |-> TRUE, denied |-> FALSE, fresh |-> TRUE, tl |-> tl]) IN
        /\ S' = r.st
        /\ W' = WStep(x.a)
        /\ hist' = Append(hist, x.a)
-  /\ UNCHANGED <<mbox, cnt, leak>>
+  /\ UNCHANGED <<mbox, cnt, leak, lost>>
 
 \* one file per behaviour; the last write is the whole behaviour
 DumpHist == DumpPrefix = "" \/ hist = <<>> \/
